@@ -1,7 +1,7 @@
 (* C03 - Conversion always tiles the whole buffer, one output character per symbol.
    Property theorems only (proofs: Proofs/ConversionProofs.v). *)
-From Coq Require Import NArith List Bool Arith.
-From LC Require Import Base.Lib Model.Composition Model.Conversion Proofs.CompositionProofs Proofs.ConversionProofs.
+From Coq Require Import NArith List Bool Arith Lia.
+From LC Require Import Base.Lib Model.Composition Model.Conversion Proofs.CompositionProofs Proofs.ConversionProofs Proofs.GraphPath.
 Import ListNotations.
 Open Scope nat_scope.
 
@@ -13,12 +13,11 @@ Hypothesis lookup_nil : lookup [] = [].
 (* Syllable::to_string: the text find_best_phrase falls back to for a syllable without any word *)
 Variable spell : N -> list N.
 Variable c : composition.
-(* compositions built from the public operations (Proofs/CompositionProofs: wf_comp is preserved by
-   every operation) whose selections are phrases for syllable ranges *)
+(* compositions built from the public operations (Proofs/CompositionProofs: wf_comp - which includes
+   "a recorded choice covers syllables only and has no break inside" - is preserved by every operation and
+   holds after every history of the editor, C05) whose selections carry one character per symbol *)
 Hypothesis Wc : wf_comp c.
 Hypothesis sel_len : Forall (fun s => length (itext s) = ie s - ib s) (selections c).
-Hypothesis sel_syl : forall sel k, In sel (selections c) -> ib sel <= k < ie sel ->
-  exists s, nth_error (symbols c) k = Some (SymSyl s).
 (* the property's "dictionary that has at least one word per syllable": every syllable of the buffer
    has a word under the engine's lookup strategy.  (Since fix e6644f0 a syllable WITHOUT any word -
    left behind by a switch from fuzzy to standard lookup, or by removing its only word - is shown
@@ -31,7 +30,7 @@ Hypothesis has_word : forall s, In (SymSyl s) (symbols c) -> lookup [SymSyl s] <
    every contained selection, a non-syllable symbol is a single unchanged character, one
    character per covered symbol *)
 Theorem C03_graph_edges : forall g, In g (find_intervals spell lookup c) -> edge_ok c g.
-Proof. exact (graph_edges_ok lookup lookup_len lookup_nil spell c Wc sel_len sel_syl has_word). Qed.
+Proof. exact (graph_edges_ok lookup lookup_len lookup_nil spell c Wc sel_len has_word). Qed.
 
 (* EVERY 0->len path through the graph - hence every alternative any ranking returns, for the
    Chewing and the Fuzzy engine - glues (glue_fn) into intervals that start at 0, are contiguous,
@@ -42,13 +41,13 @@ Theorem C03_every_path_tiles : forall p,
   path_ok (find_intervals spell lookup c) 0 (clen c) p = true ->
   let ivs := glue_path c (map edge_interval p) in
   contiguous 0 (clen c) ivs = true /\ Forall (iv_ok c) ivs.
-Proof. exact (every_path_tiles lookup lookup_len lookup_nil spell c Wc sel_len sel_syl has_word). Qed.
+Proof. exact (every_path_tiles lookup lookup_len lookup_nil spell c Wc sel_len has_word). Qed.
 
 (* whatever segmentation the implementation returned, once accepted by the model's checker
    (run on EVERY logged conversion by the correspondence check), is such a tiling *)
 Theorem C03_validated_conversion_tiles : forall ivs, symbols c <> [] -> valid_conversion spell lookup c ivs = true ->
   contiguous 0 (clen c) ivs = true /\ Forall (iv_ok c) ivs.
-Proof. exact (valid_conversion_tiles lookup lookup_len lookup_nil spell c Wc sel_len sel_syl has_word). Qed.
+Proof. exact (valid_conversion_tiles lookup lookup_len lookup_nil spell c Wc sel_len has_word). Qed.
 
 (* non-syllable symbols appear unchanged at their own position in the pre-edit string, which is
    the concatenation of the interval texts (display_of = flat_map itext by definition) *)
@@ -63,10 +62,28 @@ Print Assumptions C03_every_path_tiles.
 Print Assumptions C03_validated_conversion_tiles.
 Print Assumptions C03_char_symbols_unchanged.
 
-(* The two remaining clauses are stated but only tied by the correspondence, not proved:
-   - C03_path_exists_partial: "a 0->len path exists when every syllable has a word" (so that
-     shortest_path(..).unwrap() cannot fire) needs the invariant "no break strictly inside a
-     selection"; the BFS itself is not modelled (the ranking is an oracle, DESIGN 4.4).
+(* ---- there always is a path (so shortest_path().unwrap() / find_k_paths cannot come back empty) ---- *)
+(* For EVERY well-formed composition and EVERY dictionary (no has_word needed since fix e6644f0: a syllable
+   without a word keeps an edge, its spelling): a recorded choice is an edge of its own range, every other
+   symbol an edge of its own. *)
+Section PathExists.
+Variable lookup : lookup_fn.
+Variable spell : N -> list N.
+Variable c : composition.
+Hypothesis Wc : wf_comp c.
+Theorem C03_a_path_always_exists : exists p, path_ok (find_intervals spell lookup c) 0 (clen c) p = true.
+Proof. exact (graph_has_a_path lookup spell c Wc). Qed.
+End PathExists.
+Print Assumptions C03_a_path_always_exists.
+
+(* on the pinned tree a syllable without a word had no edge at all, the graph of the one-syllable buffer
+   was empty and no path existed (chewing_buffer_String aborted): fixed by e6644f0 *)
+Theorem C03_path_missing_pinned_refuted : forall p,
+  path_ok (find_intervals_pinned (fun _ => []) (mkComp [SymSyl 100%N] [GBegin] [])) 0 1 p = false.
+Proof. exact no_path_pinned. Qed.
+Print Assumptions C03_path_missing_pinned_refuted.
+
+(* Remaining clause, tied by the correspondence only:
    - C03_simple_engine_partial: SimpleEngine::convert is modelled exactly (Conversion.simple_convert,
      compared for equality on every logged conversion) but its tiling is not proved. *)
 
@@ -87,4 +104,16 @@ Example C03_nonvacuous :
 Proof.
   exists [mkEdge 0 2 (PPhrase [30001%N; 30002%N] 9%N); mkEdge 2 3 (PSym (SymChar 65%N)); mkEdge 3 4 (PPhrase [30000%N] 5%N)].
   vm_compute. split; reflexivity.
+Qed.
+
+(* ... and that composition meets the hypothesis of the theorems above *)
+Example C03_example_is_well_formed : wf_comp ex_comp.
+Proof.
+  constructor; cbn [ex_comp gaps symbols selections clen length].
+  - reflexivity.
+  - repeat constructor; cbn; lia.
+  - repeat constructor.
+  - intros s [<-|[]]. split; cbn [ib ie]; intros k Hk.
+    + assert (k = 0 \/ k = 1) as [-> | ->] by lia; eexists; reflexivity.
+    + assert (k = 1) as -> by lia. cbn. discriminate.
 Qed.
